@@ -324,6 +324,33 @@ fn run_scenario(w: &World, sc: &Value, run: u64) -> Vec<Value> {
     };
     emit(json!({"ev": "Reset", "scn": sc["id"], "limit": REAL_LIMIT, "pool": pool_spec, "bases": bases, "prefill": prefill,
                 "obs": (0..n).map(|r| obs_json(&regs[r], &p, &fl[r], cheap[r])).collect::<Vec<_>>()}), &mut out);
+    // tampered copies of the first authorised operations: same source and signature, rewritten content
+    for (i, o) in pool_spec.iter().enumerate().filter(|(_, o)| o["sigOk"].as_bool().unwrap_or(false) && !o["big"].as_bool().unwrap_or(false)).take(2) {
+        let good = p.ops[i].clone();
+        let r = 0usize;
+        if us(&o["addr"]) != us(&bases[r]["addr"]) { continue; }
+        let open = bases[r]["open"].as_bool().unwrap_or(false);
+        for kind in ["reparent", "value"] {
+            let mut v = serde_json::to_value(&good).expect("ser");
+            if kind == "reparent" {
+                let empty = v["crdt_op"]["children"].as_array().map(|a| a.is_empty()).unwrap_or(true);
+                v["crdt_op"]["children"] = if empty { json!([vec![7u8; 32]]) } else { json!([]) };
+            } else {
+                v["crdt_op"]["value"] = json!(b"tampered entry".to_vec());
+            }
+            let Ok(bad) = serde_json::from_value::<RegisterOp>(v) else { continue };
+            if bad == good { continue; }
+            let mut fresh = regs[r].clone();
+            let res = guarded(|| fresh.add_op(bad.clone()));
+            // a register assembled with the tampered op, presented to verify()
+            let mut set: BTreeSet<RegisterOp> = regs[r].ops().clone();
+            set.insert(bad);
+            let (reg, sg) = w.register(&bases[r]);
+            let crafted = SignedRegister::new(reg, sg, set);
+            let ver = guarded(|| crafted.verify());
+            emit(json!({"ev": "Tampered", "r": r + 1, "o": i + 1, "kind": kind, "open": open, "res": res_str(&res), "ver": res_str(&ver)}), &mut out);
+        }
+    }
     for st in sc["steps"].as_array().expect("steps") {
         let a = st["a"].as_str().expect("a");
         let exp = st.get("res").cloned().unwrap_or(json!(""));
